@@ -216,13 +216,13 @@ def pulse(*args):
         first = ' self.starttime '
 
     if interval == None:
-        return '('+str(volume) + ' /self.dt if ' + str(first) + ' <= t else 0)'
+        return '((' + str(volume) + ') /self.dt if ' + str(first) + ' <= t else 0)'
 
     if int(interval) == 0:
-        return '('+ str(volume) + ' /self.dt if ' + str(first) + ' == t else 0)'
+        return '((' + str(volume) + ') /self.dt if ' + str(first) + ' == t else 0)'
 
-    return '('+str(volume) + '/ self.dt if ' + str(first) + ' <= t and ((t -' + str(first) + ') % ' + str(
-        interval) + ') == 0 else 0)'
+    return '((' + str(volume) + ')/ self.dt if (' + str(first) + ') <= t and ((t - (' + str(first) + ')) % (' + str(
+        interval) + ')) == 0 else 0)'
 
 
 def derivn_(*args):
@@ -892,9 +892,9 @@ builtins = {
 
     'ln': lambda *args: "(np.log({}))".format(parseExpression(remove_nesting(args))),
 
-    'sinwave' : lambda *args : "( np.sin(2*np.pi / {} * (t-self.starttime) ) * {} )".format(parseExpression(remove_nesting(args)[1]),parseExpression(remove_nesting(args)[0])),
+    'sinwave' : lambda *args : "( np.sin(2*np.pi / ({}) * (t-self.starttime) ) * ({}) )".format(parseExpression(remove_nesting(args)[1]),parseExpression(remove_nesting(args)[0])),
 
-    'coswave': lambda *args: "( np.cos(2*np.pi / {} * (t-self.starttime) ) * {} )".format(
+    'coswave': lambda *args: "( np.cos(2*np.pi / ({}) * (t-self.starttime) ) * ({}) )".format(
         parseExpression(remove_nesting(args)[1]), parseExpression(remove_nesting(args)[0])),
 
     # Logical builtins
